@@ -226,13 +226,18 @@ DbWriteEvents(s, budget) ==
 StCost(prev, p) == IF prev = 0 \/ Pts[prev].sg # Pts[p].sg \/ Pts[prev].ix + 1 # Pts[p].ix
                      THEN 5 + Pts[p].ssz ELSE Pts[p].ssz
 
+\* DEV OversizeObjectNeverFits: an object larger than a whole fragment is never skipped: the writer reports "resume
+\* at the same point" for ever and the series consists of empty non-final fragments from then on.  With the deviation
+\* off such an object is left out and the series goes on.
 RECURSIVE WriteSt(_, _, _, _, _)
 WriteSt(s, q, used, prev, objs) ==
-    IF q = <<>> THEN [q |-> q, objs |-> objs, complete |-> TRUE]
+    IF q = <<>> THEN [q |-> q, objs |-> objs, complete |-> TRUE, over |-> FALSE]
     ELSE LET p == Head(q)
              cost == StCost(prev, p)
-         IN IF used + cost > SolBudget
-              THEN [q |-> q, objs |-> objs, complete |-> FALSE]
+             never == 5 + Pts[p].ssz > SolBudget
+         IN IF never /\ "OversizeObjectNeverFits" \notin DEV THEN WriteSt(s, Tail(q), used, prev, objs)
+            ELSE IF used + cost > SolBudget
+              THEN [q |-> q, objs |-> objs, complete |-> FALSE, over |-> never]
               \* (DEV_StaticUsesCurrent is a hypothetical deviation used only to show that Mon_C11 is
               \*  sensitive: report the current instead of the frozen value)
               ELSE WriteSt(s, Tail(q), used + cost, p,
@@ -242,8 +247,8 @@ WriteSt(s, q, used, prev, objs) ==
 DbWriteResponse(s) ==
     LET e == DbWriteEvents(s, SolBudget)
         st == IF e.complete THEN WriteSt(e.st, e.st.selq, e.used, 0, <<>>)
-              ELSE [q |-> e.st.selq, objs |-> <<>>, complete |-> FALSE]
-    IN [st |-> [e.st EXCEPT !.selq = st.q],
+              ELSE [q |-> e.st.selq, objs |-> <<>>, complete |-> FALSE, over |-> FALSE]
+    IN [st |-> [e.st EXCEPT !.selq = st.q, !.devs = IF st.over THEN @ \cup {"OversizeObjectNeverFits"} ELSE @],
         objs |-> e.objs \o st.objs,
         hasEvents |-> e.count > 0,
         complete |-> e.complete /\ st.complete]
@@ -408,6 +413,15 @@ HandleNonRead(s, q) ==
             [st |-> [s EXCEPT !.restart = FALSE,
                               !.ocb = Append(@, MkCb(s.now, "info", "clear_restart_iin", <<>>))],
              resp |-> EmptyResp(q.seq, NoIin)]
+      [] q.f = "write2" ->
+            \* WRITE with two g80v1 headers: index 4 (not writable: parameter error) and index 7 = 0 (clears the restart
+            \* indication), in the order "bg" (rejected first) or "gb".  DEV WriteKeepsLastStatus: handle_write assigned
+            \* the status of each header over the previous one, so only the last header's error was reported
+            LET lost == "WriteKeepsLastStatus" \in DEV /\ q.ob = "bg"
+            IN [st |-> [s EXCEPT !.restart = FALSE,
+                                 !.ocb = Append(@, MkCb(s.now, "info", "clear_restart_iin", <<>>)),
+                                 !.devs = IF lost THEN @ \cup {"WriteKeepsLastStatus"} ELSE @],
+                resp |-> EmptyResp(q.seq, [NoIin EXCEPT !.param = ~lost])]
       [] q.f = "select" ->
             LET st == SelStatus(q.ob)
             IN [st |-> [s EXCEPT !.ocb = @ \o CtlTx(s, "select", q.ob, 0),
@@ -728,14 +742,14 @@ Advance(s, target) ==
 (*   [k |-> "conn"] [k |-> "cut"] [k |-> "adv", dt] [k |-> "upd", p]          *)
 (*   [k |-> "read", seq, hs, rep]   hs: header tokens [n |-> c0|c1|c2|c3, lim]    *)
 (*   [k |-> "req", f, seq, cl, rep (, ob, bad, src, dst)]                      *)
-(*        f: delay | enable | disable | write_rst | select | operate | dop |  *)
+(*        f: delay | enable | disable | write_rst | write2 | select | operate | dop |  *)
 (*           dopnr | unkfn;  ob: control object set a | b;  bad: "" | badobj  *)
 (*           | unkfn;  src: M | X;  dst: U | BC_OPT | BC_MAN | BC_NR          *)
 (*   [k |-> "conf", uns, seq]                                                 *)
 (* rep = byte-identical repetition of the previous request fragment          *)
 
 FcOf(f) == CASE f = "read" -> 1 [] f = "delay" -> 23 [] f = "enable" -> 20 [] f = "disable" -> 21
-             [] f = "write_rst" -> 2 [] f = "select" -> 3 [] f = "operate" -> 4 [] f = "dop" -> 5
+             [] f = "write_rst" -> 2 [] f = "write2" -> 2 [] f = "select" -> 3 [] f = "operate" -> 4 [] f = "dop" -> 5
              [] f = "dopnr" -> 6 [] f = "unkfn" -> 112 [] OTHER -> 0
 
 Fld(in, name, dflt) == IF name \in DOMAIN in THEN in[name] ELSE dflt
